@@ -78,10 +78,10 @@ def post_plan(seed, tier, jobs, results):
                             "family": item["family"],
                             "mode": mode,
                             "enumerate": n == 0,
-                            "max_k": 40 if tier == "quick" else 400,
+                            "max_k": 40 if tier == "quick" else 250,
                             "seed": "%s/p%d" % (seed, pid),
                         },
-                        "timeout": 900,
+                        "timeout": 900 if tier == "quick" else 2700,
                     }
                 )
     # heavy (enumerating) jobs first
@@ -489,7 +489,7 @@ def summarize(jobs, results, tier):
         "semiring families) in a fresh fork under one interpretation setting and one fault: none (R0), firing k declined "
         "(every k<=K, or a seeded %d of them), or one rule function disabled on non-ground operands (every rule that "
         "fired). Non-trivial = the fault actually fired (the firing existed and was declined / the rule was kept from "
-        "firing at least once); distinct by construction (program, setting, fault)." % (40 if tier == "quick" else 400),
+        "firing at least once); distinct by construction (program, setting, fault)." % (40 if tier == "quick" else 250),
         "samples": samples,
         "exhaustive": False,
         "programs_enumerated": enumerated,
